@@ -5,7 +5,9 @@ serialised field in turn takes every value of its small domain on the live flow 
 (`vmc.refs.flowgen.deviations`), then every pair of such deviations (quick: pairs of the
 interacting "core" fields; thorough: all pairs); every ordered sequence of 1-3 flows from a
 pool of mixed flows.  Each flow is written with the real FlowWriter and read with the real
-FlowReader; `get_state()` before and after are compared with a strictly typed comparison.
+FlowReader; `get_state()` before and after are compared with a strictly typed comparison,
+and so is an independent attribute-by-attribute observation of the live objects (a defect
+on the get_state side cannot cancel itself out).
 
 Part B (reader totality): every truncation and every single-byte substitution of base files,
 every byte string up to a length bound over the structural alphabet, every small structural
@@ -84,6 +86,7 @@ def roundtrip_once(ftype, devnames):
     """-> (clause_that_failed or None, expected, observed, saved_bytes)"""
     f = G.build(ftype, devnames)
     try:
+        o0 = G.observe(f)
         s0 = f.get_state()
         data = G.dump_flows([f])
     except KeyboardInterrupt:
@@ -104,6 +107,10 @@ def roundtrip_once(ftype, devnames):
     if G.canon(s0) != G.canon(s1):
         d = G.diff(s0, s1)
         return "state_roundtrip", [x[1] for x in d], [[x[0], x[2]] for x in d], data
+    o1 = G.observe(r.flows[0])
+    if G.canon(o0) != G.canon(o1):
+        d = G.diff(o0, o1)
+        return "loaded_flow_equals_saved_flow", [x[1] for x in d], [[x[0], x[2]] for x in d], data
     return None, None, None, data
 
 
@@ -115,7 +122,7 @@ def rt_case(case, t: Tally):
     failed, exp, obs, data = roundtrip_once(ftype, devnames)
     if ftype not in _BASELEN:
         _BASELEN[ftype] = G.dump_flows([G.base(ftype)])
-    for c in ("save_succeeds", "load_yields_the_saved_flows", "state_roundtrip"):
+    for c in ("save_succeeds", "load_yields_the_saved_flows", "state_roundtrip", "loaded_flow_equals_saved_flow"):
         if c == failed:
             feats = rt_features(ftype, devnames)
             if len(devnames) > 1:
@@ -144,6 +151,7 @@ def seq_case(case, t: Tally):
     flows = [G.build(pool[i][0], pool[i][1], n=k + 1) for k, i in enumerate(case["s"])]
     feats = {"seq_len": len(flows), "reader": "file" if case.get("real") else "bytesio"}
     want = [f.get_state() for f in flows]
+    wanto = [G.observe(f) for f in flows]
     data = G.dump_flows(flows)
     if case.get("real"):
         os.makedirs(SCRATCH, exist_ok=True)
@@ -162,6 +170,9 @@ def seq_case(case, t: Tally):
         t.judge("order_kept", [s["id"] for s in got] == [s["id"] for s in want], feats, case, [s["id"] for s in want], [s["id"] for s in got])
         same = all(G.canon(a) == G.canon(b) for a, b in zip(want, got))
         t.judge("state_roundtrip", same, feats, case, None, [G.diff(a, b)[:2] for a, b in zip(want, got) if G.canon(a) != G.canon(b)][:2])
+        goto = [G.observe(f) for f in r.flows]
+        t.judge("loaded_flow_equals_saved_flow", all(G.canon(a) == G.canon(b) for a, b in zip(wanto, goto)), feats, case, None,
+                [G.diff(a, b)[:2] for a, b in zip(wanto, goto) if G.canon(a) != G.canon(b)][:2])
     t.case(case if len(flows) == 3 else None, nontrivial=True, key=case)
 
 
